@@ -545,6 +545,13 @@ func (e *engine) procStep(st map[string]any, a, p, res string, args map[string]a
 			// other client would show in the refs compared after the following steps).
 			run.idem = true
 			e.crit["idempotent_cas"]++
+			if e.lookahead(p, e.step).found {
+				// the model goes on to interrupt this attempt before its (second) compare-and-swap, the real call has already
+				// returned: this schedule cannot be followed any further on this store; the behaviour ends here
+				e.stop = true
+				e.prev = nil
+				return nil
+			}
 		} else if lg[n0] != (res == "ok") {
 			return common.Fail(e.step, a, "result of the compare-and-swap on the store root", res, fmt.Sprint(lg[n0]))
 		}
